@@ -29,6 +29,15 @@ def correspond(ctx, name, cases_text, precond="ruiz", backends=("dense",), timeo
         ctx.ob("correspondence:%s:model" % name, "correspondence", False, "model driver failed rc=%d: %s" % (rc2, o2[-600:]))
         return res, mobs
     mobs = vlib.parse_obs(o2)
+    # the sparse Ruiz preconditioner differs from the dense one in its loop guard when scale_cost is on (scratch aliasing,
+    # modelled by the flag sparse_quirk of PrecondDense.v): the sparse back ends are compared with the model run with that flag
+    mobs_sparse = mobs
+    if precond == "ruiz" and any(b != "dense" for b in backends):
+        rc3, o3 = vlib.run_bin_chunked(model, cases_text, ctx.work, name + "_ms", args=["--sparse-precond"], timeout=timeout)
+        if rc3 != 0:
+            ctx.ob("correspondence:%s:model-sparse-precond" % name, "correspondence", False, "model driver failed rc=%d: %s" % (rc3, o3[-600:]))
+            return res, mobs
+        mobs_sparse = vlib.parse_obs(o3)
     for b, (impl, msg1) in zip(backends, built):
         obn = "correspondence:%s:%s:%s" % (name, b, precond)
         if impl is None:
@@ -38,7 +47,8 @@ def correspond(ctx, name, cases_text, precond="ruiz", backends=("dense",), timeo
             ctx.ob(obn, "correspondence", False, "driver failed rc=%d: %s" % (rc1, o1[-600:])); res[b] = (False, [], vlib.parse_obs(o1)); continue
         a = vlib.parse_obs(o1)
         sk = (skip or {}).get(b, set())
-        diffs = vlib.diff_obs({k: v for k, v in a.items() if k not in sk}, {k: v for k, v in mobs.items() if k not in sk}, ignore=ignore, only=(only.get(b) if isinstance(only, dict) else only))
+        mref = mobs if b == "dense" else mobs_sparse
+        diffs = vlib.diff_obs({k: v for k, v in a.items() if k not in sk}, {k: v for k, v in mref.items() if k not in sk}, ignore=ignore, only=(only.get(b) if isinstance(only, dict) else only))
         ctx.ob(obn, "correspondence", not diffs,
                "; ".join("%s %s impl=%s model=%s" % (c, k, str(x)[:80], str(y)[:80]) for c, k, x, y in diffs[:5]))
         res[b] = (not diffs, diffs, a)
